@@ -84,13 +84,46 @@ fn check_case(case: &Value, stats: &mut Stats) -> CheckResult {
     }
 }
 
+/// Validity itself under the two mirrors, on unvalidated boards: the gate's verdict must not depend on which colour is
+/// which (or on left and right when there are no rights), and what it makes of an accepted board must be the image.
+fn raw_mirror_check(case: &Value, stats: &mut Stats) -> CheckResult {
+    let p = crate::gen::raw::raw_from_json(case).map_err(|e| Failure::new(format!("harness: bad raw case: {}", e)))?;
+    let mut images = vec![("colour-mirror", flip_colors(&p))];
+    if !p.castle.iter().any(|x| *x) {
+        images.push(("left-right mirror", flip_files(&p)));
+    }
+    let a = Board::try_from(raw_from_ref(&p));
+    for (name, img) in images {
+        let im = Board::try_from(raw_from_ref(&img));
+        match (&a, &im) {
+            (Ok(x), Ok(y)) => {
+                let want = if name == "colour-mirror" { flip_colors(&ref_from_raw(x.raw())) } else { flip_files(&ref_from_raw(x.raw())) };
+                ensure!(*y.raw() == raw_from_ref(&want), "validation makes {} of the {} image but {} of the original", y.raw().as_fen(), name, x.raw().as_fen());
+            }
+            (Err(_), Err(_)) => {}
+            (Ok(_), Err(e)) => fail!("{} is accepted but its {} image {} is refused: {}", p.fen(), name, img.fen(), e),
+            (Err(e), Ok(_)) => fail!("{} is refused ({}) but its {} image {} is accepted", p.fen(), e, name, img.fen()),
+        }
+    }
+    stats.label(if a.is_ok() { "accepted" } else { "refused" });
+    let (w, b) = (p.count(Col::W), p.count(Col::B));
+    stats.label_if(w > 16 || b > 16, "more_than_16_men_of_a_colour");
+    stats.label_if(w != b, "unequal_armies");
+    if w != b || a.is_err() {
+        stats.nontrivial(&(p.rep_key(), "raw"));
+    }
+    Ok(())
+}
+
 pub fn property() -> Property {
     Property {
         id: "C18",
-        rule: "Metamorphic: valid positions (19 sources) are mirrored top-to-bottom with colours, side, rights and mark swapped (always) and \
+        rule: "Metamorphic: valid positions (20 sources) are mirrored top-to-bottom with colours, side, rights and mark swapped (always) and \
                left-to-right (when no castling rights); the image must pass validation unchanged, and legal::gen_all, semilegal::gen_all, \
                legal::gen_capture of the image must equal the mapped move sets of the original; is_check, has_legal_moves, calc_outcome \
-               (winner swapped), calc_draw_simple must agree. Non-trivial = position with pawns, rights or an ep mark; distinct by \
+               (winner swapped), calc_draw_simple must agree. raw_boards_mirror: unvalidated boards (5 sources incl. injected faults and armies \
+               around the 16-men limit): validation accepts a board exactly when it accepts its images, and what it makes of them are \
+               images of each other. Non-trivial = position with pawns, rights or an ep mark; distinct by \
                (squares, side, rights, mark).",
         assumptions: &["no reference model involved: the library is compared with itself under a symmetry of the rules"],
         subchecks: vec![SubCheck {
@@ -99,6 +132,14 @@ pub fn property() -> Property {
             check: check_case,
             configs: Configs::ReleaseOnly,
             required: &["horizontal", "castling_right", "ep_mark", "has_outcome", "has_pawns"],
+            regressions: &[],
+            exhaustive: false,
+        }, SubCheck {
+            name: "raw_boards_mirror",
+            driver: Driver::Generated { gen: crate::gen::raw::gen_raw_case, genome_len: 256, quick: 1_500_000, thorough: 12_000_000 },
+            check: raw_mirror_check,
+            configs: Configs::ReleaseOnly,
+            required: &["accepted", "refused", "more_than_16_men_of_a_colour", "unequal_armies"],
             regressions: &[],
             exhaustive: false,
         }],
